@@ -125,3 +125,113 @@ class io_write:
         exists = [e for e in ev if e[1] == 'os.path.exists']
         mk = [e for e in ev if e[1] == 'os.makedirs']
         return conj(len(exists) == 1, len(mk) <= 1)
+
+
+# ------------------------------------------------------------------------------------------------ the public readers and concat
+@contract(GEN + 'create', props=['C20'], name='generic_create_summary', local=True,
+          assumed='abstraction of Generic.create (verified by contract generic_create): a result determined by the text and the strict flag')
+class generic_create_summary:
+    def model(content, strict):
+        r = opaque('created')
+        record('create', content=content, strict=strict, result=r)
+        return r
+
+
+@contract(GEN + 'read', props=['C20'], name='generic_read_summary', local=True,
+          assumed='abstraction of Generic.read (verified by contract generic_read): a result determined by the path and the strict flag')
+class generic_read_summary:
+    def model(path, strict):
+        r = opaque('read')
+        record('read', path=path, strict=strict, result=r)
+        return r
+
+
+@contract(GEN + 'concat', props=['C20', 'C19'], name='generic_concat_summary', local=True,
+          assumed='abstraction of Generic.concat (verified by contract concat_bookkeeping): a result determined by the fragments and the separator')
+class generic_concat_summary:
+    def model(contents, separator):
+        r = opaque('concatenated')
+        record('concat', contents=contents, separator=separator, result=r)
+        return r
+
+
+@contract(PUB + 'loads', props=['C20'])
+class public_loads:
+    """loads(s, raise_on_errors) is Generic.create(s, strict=raise_on_errors): the text and the flag are handed over unchanged"""
+    uses = ('generic_create_summary',)
+
+    def inputs(g):
+        return {'s': opaque('text'), 'raise_on_errors': g.choice('strict', [False, True])}
+
+    def post_hands_over(result, s, raise_on_errors):
+        c = calls_of('create')
+        return conj(len(c) == 1, c[0]['content'] is s, c[0]['strict'] == raise_on_errors, result is c[0]['result'])
+
+
+@contract(PUB + 'load', props=['C20'])
+class public_load:
+    """load(fp, raise_on_errors) is Generic.read(fp, strict=raise_on_errors)"""
+    uses = ('generic_read_summary',)
+
+    def inputs(g):
+        return {'fp': opaque('path'), 'raise_on_errors': g.choice('strict', [False, True])}
+
+    def post_hands_over(result, fp, raise_on_errors):
+        c = calls_of('read')
+        return conj(len(c) == 1, c[0]['path'] is fp, c[0]['strict'] == raise_on_errors, result is c[0]['result'])
+
+
+@contract(PUB + 'concat', props=['C20', 'C19'])
+class public_concat:
+    """kp.concat(contents, separator=...) is Generic.concat with the same fragments and separator"""
+    uses = ('generic_concat_summary',)
+
+    def inputs(g):
+        return {'contents': opaque('fragments'), 'separator': g.choice('separator', ['\n', '', None])}
+
+    def post_hands_over(result, contents, separator):
+        c = calls_of('concat')
+        return conj(len(c) == 1, c[0]['contents'] is contents, c[0]['separator'] == separator, result is c[0]['result'])
+
+
+# ------------------------------------------------------------------------------------------------ the directory walker of the command line
+A_GLOB = ('A-glob: Path.glob(pattern) lists the files of the directory that match the pattern, Path.rglob(pattern) those of the whole '
+          'tree below it; each file once')
+
+
+class FileStub:
+    def __init__(self, name, folder):
+        self.name, self.folder = name, folder
+
+
+class DirStub:
+    """a directory known through what its glob / rglob calls answer for the two patterns of a converter"""
+    def __init__(self, flat, deep, patterns):
+        self.flat, self.deep, self.patterns = flat, deep, patterns
+
+    def glob(self, pattern):
+        return self.flat[0] if pattern == self.patterns[0] else self.flat[1]
+
+    def rglob(self, pattern):
+        return self.deep[0] if pattern == self.patterns[0] else self.deep[1]
+
+
+def mk_files(g, name):
+    return g.seq(name, lambda e: e.new(FileStub, {'name': e.str_sym('name', ['a.krn', 'b.krn', 'a.kern']), 'folder': e.int('folder', 0)}, None))
+
+
+@contract('kernpy.__main__.find_files', props=['C20'])
+class find_files:
+    """C20 (directory invocations convert every file): the files handed to the converter are exactly the matches of the first pattern
+    followed by the matches of the second one -- of the directory itself, or of the whole tree when recursive -- each match once, none
+    dropped (files of the same name in different folders are different files)"""
+    assumes = (A_GLOB,)
+
+    def inputs(g):
+        patterns = ['*.krn', '*.kern']
+        d = DirStub([mk_files(g, 'flat0'), mk_files(g, 'flat1')], [mk_files(g, 'deep0'), mk_files(g, 'deep1')], patterns)
+        return {'directory': d, 'patterns': patterns, 'recursive': g.bool('recursive')}
+
+    def post_every_match_once(result, directory, recursive):
+        lists = directory.deep if recursive else directory.flat
+        return conj(len(result) == len(lists[0]) + len(lists[1]), list(result) == lists[0] + lists[1])
